@@ -60,6 +60,7 @@ EPS = {('ep%d' % i): _mk_ep('ep%d' % i) for i in range(3)}
 
 def _mk_proc(name):
     def proc(entity):
+        maybe_fault('processor')
         data = entity.fp.read()
         cherrypy.serving.request.c10_body = '%s:%s' % (name, data.decode('latin-1'))
     proc.__name__ = proc.c10name = name
@@ -130,6 +131,134 @@ def _tb_tool(tag='tb'):
 
 
 _tb_tool.__name__ = _tb_tool.c10name = 'c10tbtool'
+
+
+# ------------------------------------------------------------------------------------------------
+# faults: a plan may say that a callback site of the request lifecycle raises ({'at': site, 'exc': kind})
+# ------------------------------------------------------------------------------------------------
+FAULT_SITES = ['hook:' + p for p in _cprequest.hookpoints] + ['body', 'bodyclose', 'close', 'close_before',
+                                                              'error_response', 'tool_setup', 'processor',
+                                                              'bus:before_request', 'bus:after_request']
+FAULT_EXCS = ['value', 'httperror', 'redirect', 'iredirect', 'base']
+
+
+class C10BaseFault(BaseException):
+    """Neither an Exception nor KeyboardInterrupt / SystemExit: nothing in the framework catches it by name."""
+
+
+def fault_for(at):
+    """The fault the running call's plan schedules for callback site `at`, or None."""
+    plan, rec = getattr(CUR, 'plan', None), getattr(CUR, 'rec', None)
+    if not plan or rec is None:
+        return None
+    for f in plan.get('faults') or ():
+        if f['at'] == at:
+            if f['exc'] == 'iredirect' and rec.get('sub', 0) > 0:
+                continue            # an internal redirect raised again by the sub-request would only loop
+            return f
+    return None
+
+
+def raise_fault(f):
+    plan, rec = CUR.plan, CUR.rec
+    rec['faults_fired'].append(f['at'])
+    EVENTS.append(('F', plan['token'], rec.get('sub', 0), f['at']))
+    kind, where = f['exc'], '%s for %s' % (f['at'], plan['token'])
+    if kind == 'httperror':
+        raise cherrypy.HTTPError(409, 'c10 fault at ' + where)
+    if kind == 'redirect':
+        raise cherrypy.HTTPRedirect('/c10-elsewhere?token=%s' % plan['token'])
+    if kind == 'iredirect':
+        raise cherrypy.InternalRedirect(plan.get('redirect_to') or '/', 'token=%s&via=fault' % plan['token'])
+    if kind == 'base':
+        raise C10BaseFault('c10 fault at ' + where)
+    raise ValueError('c10 fault at ' + where)
+
+
+def maybe_fault(at):
+    f = fault_for(at)
+    if f is not None:
+        raise_fault(f)
+
+
+def _mk_fault_hook(point):
+    def hook(**kw):
+        maybe_fault('hook:' + point)
+    hook.__name__ = hook.c10name = 'c10fault_' + point
+    return hook
+
+
+FAULT_HOOKS = {p: _mk_fault_hook(p) for p in _cprequest.hookpoints}
+
+
+def _tool_noop():
+    pass
+
+
+_tool_noop.__name__ = _tool_noop.c10name = 'c10tf'
+
+
+class FaultTool(_cptools.Tool):
+    """A tool whose attachment to the request (`_setup`, run by the `tools` namespace when the request's config
+    is applied) may fail."""
+
+    def _setup(self):
+        maybe_fault('tool_setup')
+        _cptools.Tool._setup(self)
+
+
+if not hasattr(cherrypy.tools, 'c10tf'):
+    cherrypy.tools.c10tf = FaultTool('before_handler', _tool_noop, priority=56)
+
+
+def c10_error_response():
+    """request.error_response of sites with the `errresp` flag: what Request.run installs, or a fault."""
+    maybe_fault('error_response')
+    cherrypy.HTTPError(500).set_response()
+
+
+c10_error_response.c10name = 'c10_error_response'
+
+
+class C10Request(_cprequest.Request):
+    """request_class of applications with the `reqclass` flag: close() may fail (before or after the hooks)."""
+
+    def close(self):
+        maybe_fault('close_before')
+        _cprequest.Request.close(self)
+        maybe_fault('close')
+
+
+def _bus_before_request():
+    maybe_fault('bus:before_request')
+
+
+def _bus_after_request():
+    maybe_fault('bus:after_request')
+
+
+# process-level setup (like the tools above): two engine listeners that do nothing unless a plan says so
+if not getattr(cherrypy.engine, '_c10_listeners', False):
+    cherrypy.engine.subscribe('before_request', _bus_before_request)
+    cherrypy.engine.subscribe('after_request', _bus_after_request)
+    cherrypy.engine._c10_listeners = True
+
+
+class FaultIter(object):
+    """A streamed body whose close() fails (the iterator is what AppResponse.close closes after the release)."""
+
+    def __init__(self, it):
+        self.it = it
+
+    def __iter__(self):
+        return self
+
+    def __next__(self):
+        return next(self.it)
+
+    def close(self):
+        self.it.close()
+        maybe_fault('bodyclose')
 
 
 # ------------------------------------------------------------------------------------------------
@@ -486,7 +615,10 @@ def seen_tokens():
         p = cherrypy.request.params
         if 'token' in p:
             out['params'] = p['token']
-        out['resp'] = getattr(cherrypy.response, 'c10_owner', None)
+        rec = getattr(CUR, 'rec', None) or {}
+        # the response is marked by the `start` probe: expected only where that probe ran for this request object
+        marked = rec.get('start_ran_for') is cherrypy.serving.request
+        out['resp'] = getattr(cherrypy.response, 'c10_owner', None if marked else 'UNMARKED')
         out['mw'] = 'mw' + str(cherrypy.request.wsgi_environ.get('c10.mw'))
     except Exception as e:     # a broken thread-local shows up as an observation, not a harness error
         out['error'] = type(e).__name__
@@ -519,12 +651,15 @@ def run_stage(stage):
         return
     if stage == 'start':
         cherrypy.serving.response.c10_owner = plan['token']
+        rec['start_ran_for'] = cherrypy.serving.request
     snapshot(stage + ':in')
     ops = [o for o in plan['ops'] if o['stage'] == stage]
     for o in ops:
         try:
             apply_op(o, plan['token'])
             rec['applied'].append(o['marker'])
+            if OPS[o['op']][1] != 'add':
+                rec.setdefault('first_destructive', len(rec['snaps']) - 1)
             EVENTS.append(('M', plan['token'], rec.get('sub', 0), plan['ops'].index(o), len(rec['snaps']) - 1))
         except common.HarnessError:
             raise
@@ -559,8 +694,10 @@ def body_echo():
         getattr(r, 'c10_t2', None), getattr(r, 'c10_tb', None))).encode('latin-1')
 
 
-def make_node(kind_conf):
-    """A node class of the handler tree; `kind_conf` = {handler name: _cp_config}."""
+def make_node(kind_conf, cls_conf=None, default_conf=None):
+    """A node class of the handler tree; `kind_conf` = {handler name: function-level _cp_config},
+    `cls_conf` = class-level _cp_config (None: none), `default_conf` = _cp_config of an exposed `default`
+    handler (None: no default handler)."""
 
     class Node(object):
         pass
@@ -580,7 +717,10 @@ def make_node(kind_conf):
             if 'body' in plan['parks']:
                 CUR.park('body')
             snapshot('body:in')
+            maybe_fault('body')
             yield body_echo()
+        if fault_for('bodyclose') is not None:
+            return FaultIter(gen())
         return gen()
     stream._cp_config = {'response.stream': True}
 
@@ -596,14 +736,22 @@ def make_node(kind_conf):
         run_stage('handler')
         raise cherrypy.InternalRedirect(CUR.plan['redirect_to'], 'token=%s&via=redir' % CUR.plan['token'])
 
-    for f in (index, stream, err, boom, redir):
+    def default(self, *a, **kw):
+        run_stage('handler')
+        cherrypy.response.headers['X-Token'] = cherrypy.request.params.get('token', 'NONE')
+        return body_echo() + (';default=%s' % '/'.join(a)).encode('latin-1')
+
+    fns = [index, stream, err, boom, redir] + ([default] if default_conf is not None else [])
+    for f in fns:
         f.exposed = True
-        extra = kind_conf.get(f.__name__)
+        extra = (default_conf or None) if f is default else kind_conf.get(f.__name__)
         if extra:
             d = dict(getattr(f, '_cp_config', {}))
             d.update(extra)
             f._cp_config = d
         setattr(Node, f.__name__, f)
+    if cls_conf is not None:
+        Node._cp_config = dict(cls_conf)
     return Node
 
 
@@ -637,24 +785,32 @@ def feature_entries(feat):
 TREE_PATHS = ['/', '/a', '/a/x', '/b', '/b/y']
 
 
+def _entries(feats):
+    return {k: v for f in feats for k, v in feature_entries(tuple(f)).items()}
+
+
 class Site(object):
-    """The real applications built from a site description (see c10.gen_site)."""
+    """The real applications built from a site description (see c10.gen_site).
+
+    Per application: `classes` = [{'fn': {handler: feats}, 'cls': feats|None, 'default': feats|None}] and
+    `nodes` = {path: {'class': i, 'inst': feats|None, 'same_as': path|None}} say which node classes exist (with
+    function-level / class-level `_cp_config`), which paths are instances of which class (several paths may share
+    one), which carry an instance-level `_cp_config`, and which paths are literally the same object; `tree_of` = j
+    mounts the very node objects of application j under this application's own configuration.  Descriptions
+    without `nodes` (older corpus cases) get one class per path from `cpconfig`."""
 
     def __init__(self, desc):
         self.desc = desc
         self.apps = []
         self.app_meta = []
+        self.trees = []
         confs = []
         for ad in desc['apps']:
-            nodes = {}
-            for p in TREE_PATHS:
-                kc = {h: {k: v for f in feats for k, v in feature_entries(tuple(f)).items()}
-                      for h, feats in ad.get('cpconfig', {}).get(p, {}).items()}
-                nodes[p] = make_node(kc)()
-            nodes['/'].a = nodes['/a']
-            nodes['/'].b = nodes['/b']
-            nodes['/a'].x = nodes['/a/x']
-            nodes['/b'].y = nodes['/b/y']
+            if ad.get('tree_of') is not None and ad['tree_of'] < len(self.trees):
+                nodes = self.trees[ad['tree_of']]
+            else:
+                nodes = self._build_tree(ad)
+            self.trees.append(nodes)
             conf = {}
             for sect, feats in ad['config'].items():
                 d = conf.setdefault(sect, {})
@@ -664,12 +820,23 @@ class Site(object):
             root['hooks.on_start_resource.c10probe'] = _cprequest.Hook(hook_start, failsafe=True, priority=1)
             root['hooks.before_finalize.c10probe'] = _cprequest.Hook(hook_finalize, failsafe=True, priority=99)
             root['hooks.on_end_request.c10probe'] = _cprequest.Hook(hook_end, failsafe=True, priority=1)
+            if ad.get('fault_hooks'):
+                for p in HOOKPOINTS:
+                    root['hooks.%s.c10fault' % p] = _cprequest.Hook(
+                        FAULT_HOOKS[p], failsafe=bool(ad.get('fault_failsafe')), priority=50)
+                root['tools.c10tf.on'] = True
+            if ad.get('noencode'):
+                root['tools.encode.on'] = False       # streamed bodies reach AppResponse as the handler returned them
+            if ad.get('errresp'):
+                root['request.error_response'] = c10_error_response
             if ad.get('wsgi_tag'):
                 root['wsgi.c10mw.tag'] = ad['wsgi_tag']
                 root['log.c10_tag'] = ad['wsgi_tag']
             if ad.get('mw'):
                 root['wsgi.pipeline'] = [('c10mw', C10MW)]
             app = _cptree.Application(nodes['/'], ad['script_name'])
+            if ad.get('reqclass'):
+                app.request_class = C10Request
             if ad.get('toolbox'):
                 tb = _cptools.Toolbox(ad['toolbox'])
                 tb.probe = _cptools.Tool('before_handler', _tb_tool, priority=52)
@@ -684,6 +851,32 @@ class Site(object):
             self.app_meta.append({'config': canon(app.config), 'namespaces': sorted(app.namespaces),
                                   'pipeline': canon(app.wsgiapp.pipeline), 'wsgiconfig': canon(app.wsgiapp.config),
                                   'log_tag': getattr(app.log, 'c10_tag', None)})
+
+    @staticmethod
+    def _build_tree(ad):
+        nodes = {}
+        if ad.get('nodes'):
+            classes = [make_node({h: _entries(feats) for h, feats in (cd.get('fn') or {}).items()},
+                                 None if cd.get('cls') is None else _entries(cd['cls']),
+                                 None if cd.get('default') is None else _entries(cd['default']))
+                       for cd in ad['classes']]
+            for p in TREE_PATHS:
+                nd = ad['nodes'][p]
+                if nd.get('same_as') in nodes:
+                    nodes[p] = nodes[nd['same_as']]
+                    continue
+                nodes[p] = classes[nd['class']]()
+                if nd.get('inst') is not None:
+                    nodes[p]._cp_config = _entries(nd['inst'])
+        else:
+            for p in TREE_PATHS:
+                kc = {h: _entries(feats) for h, feats in ad.get('cpconfig', {}).get(p, {}).items()}
+                nodes[p] = make_node(kc)()
+        nodes['/'].a = nodes['/a']
+        nodes['/'].b = nodes['/b']
+        nodes['/a'].x = nodes['/a/x']
+        nodes['/b'].y = nodes['/b/y']
+        return nodes
 
     def app_state(self, i):
         app = self.apps[i]
@@ -713,12 +906,26 @@ def make_environ(plan, script_name):
     return env
 
 
+def idle_state():
+    """What the current thread's serving container holds while the thread is not serving anything."""
+    try:
+        sv = vars(cherrypy.serving)
+        req, resp = cherrypy.serving.request, cherrypy.serving.response
+        return {'serving': sorted(sv), 'prev_escaped': bool(getattr(CUR, 'prev_escaped', False)),
+                'default': req is cherrypy._Serving.request and resp is cherrypy._Serving.response,
+                'app_none': cherrypy.request.app is None,
+                'adhoc': sorted(k for k in list(vars(req)) + list(vars(resp)) if k.startswith('c10_') or 'mk' in k.lower())}
+    except Exception as e:       # a broken container is an observation
+        return {'serving': ['ERROR:' + type(e).__name__], 'default': False, 'app_none': False, 'adhoc': [],
+                'prev_escaped': False}
+
+
 def do_call(site, plan, park):
     """Run one WSGI call on the current thread; returns the record of everything observed."""
     app = site.apps[plan['app']]
     rec = {'token': plan['token'], 'snaps': [], 'objs': [], 'applied': [], 'op_errors': [], 'hook_runs': [],
            'status': None, 'wsgi_headers': None, 'body': None, 'exc': None, 'serving_after': None,
-           'default_after': None}
+           'default_after': None, 'faults_fired': [], 'idle_before': idle_state(), 'idle_after': None}
     CUR.plan, CUR.rec, CUR.park = plan, rec, park
     env = make_environ(plan, app.script_name)
 
@@ -732,18 +939,151 @@ def do_call(site, plan, park):
             chunks = []
             for c in res:
                 chunks.append(c)
+                if plan.get('abandon'):
+                    break               # the client went away after the first chunk: the server closes the response
             rec['body'] = b''.join(chunks).decode('latin-1')
         finally:
             if hasattr(res, 'close'):
                 res.close()
-    except Exception as e:                 # escaped the WSGI stack: an observation
+    except BaseException as e:             # escaped the WSGI stack: an observation
+        if isinstance(e, common.HarnessError) or type(e).__name__ == '_Abort':
+            raise
         rec['exc'] = '%s: %s' % (type(e).__name__, str(e)[:120])
     if rec.get('open'):
         EVENTS.append(('D', plan['token'], rec['sub']))
         rec['open'] = False
     rec.pop('last_req', None)
-    rec['serving_after'] = sorted(vars(cherrypy.serving))
-    rec['default_after'] = (cherrypy.serving.request is cherrypy._Serving.request and
-                            cherrypy.serving.response is cherrypy._Serving.response)
+    rec.pop('start_ran_for', None)
+    CUR.prev_escaped = rec['exc'] is not None
+    rec['idle_after'] = idle_state()
+    rec['serving_after'] = rec['idle_after']['serving']
+    rec['default_after'] = rec['idle_after']['default']
+    if 'bus:after_request' in rec['faults_fired'] and not rec['default_after']:
+        # finding F24 (release_serving gives up when an `after_request` listener fails): recorded once, here; the
+        # harness then empties the container itself so that the rest of the history starts from an idle thread
+        rec['release_skipped'] = True
+        cherrypy.serving.clear()
     CUR.plan = CUR.rec = None
     return rec
+
+
+# ------------------------------------------------------------------------------------------------
+# deep state: every long-lived mutable object reachable from the mounted trees, the applications, the classes
+# and the modules the property is anchored in - rendered canonically, one level after the other
+# ------------------------------------------------------------------------------------------------
+import types as _types
+
+DEEP_CLASSES = [_cprequest.Request, _cprequest.Response, _cprequest.HookMap, _cprequest.Hook, _cptree.Application,
+                _cptree.Tree, _cptools.Tool, _cptools.HandlerTool, _cptools.Toolbox, _cpwsgi.CPWSGIApp,
+                _cpwsgi.AppResponse, _cpwsgi.InternalRedirector, _cpreqbody.Entity, _cpreqbody.RequestBody,
+                _cpreqbody.Part, cherrypy._Serving, cherrypy._ThreadLocalProxy, C10Request]
+DEEP_MODULES = ['cherrypy', 'cherrypy._cprequest', 'cherrypy._cptree', 'cherrypy._cpdispatch', 'cherrypy._cptools',
+                'cherrypy._cpwsgi', 'cherrypy._cpreqbody']
+# instance attributes that are memoised on first use and say nothing about any particular request
+LAZY_ATTRS = {'head'}
+
+
+def _deep(v, seen, depth=0):
+    """Canonical, identity-free rendering of a value, following dicts / lists / sets / functions' and tools'
+    own attributes; everything else is rendered by name."""
+    if v is None or isinstance(v, (bool, int, float, str)):
+        return v
+    if isinstance(v, bytes):
+        return 'b:' + v.decode('latin-1')
+    if depth > 7:
+        return 'deep'
+    if isinstance(v, dict):
+        return {str(_deep(k, seen, depth + 1)): _deep(x, seen, depth + 1) for k, x in list(v.items())}
+    if isinstance(v, (list, tuple)):
+        return [_deep(x, seen, depth + 1) for x in list(v)]
+    if isinstance(v, (set, frozenset)):
+        return sorted(json.dumps(_deep(x, seen, depth + 1), sort_keys=True) for x in v)
+    if isinstance(v, _cprequest.Hook):
+        return canon_hook(v)
+    if isinstance(v, (_cptools.Tool, _cptools.Toolbox)):
+        if id(v) in seen:
+            return cname(v)
+        seen.add(id(v))
+        return {'%s' % cname(v): {k: _deep(x, seen, depth + 1) for k, x in list(vars(v).items())}}
+    f = getattr(v, '__func__', v)
+    if isinstance(f, _types.FunctionType):
+        own = {k: _deep(x, seen, depth + 1) for k, x in list(vars(f).items()) if k not in ('c10name', '__wrapped__')}
+        return {cname(v): own} if own else cname(v)
+    return cname(v) if not isinstance(v, type) else 'class:' + v.__name__
+
+
+def _class_state(cls, seen):
+    return {k: _deep(x.__func__ if isinstance(x, (classmethod, staticmethod)) else x, seen, 1)
+            for k, x in list(vars(cls).items()) if not (k.startswith('__') and k.endswith('__'))}
+
+
+def tree_state(root, seen=None):
+    """Every node reachable from a mounted root: its instance dict, its classes' dicts, its handlers' dicts."""
+    seen = set() if seen is None else seen
+    out, order, todo = {}, {}, [('', root)]
+    while todo:
+        path, node = todo.pop(0)
+        if id(node) in order or len(order) > 40:
+            continue
+        order[id(node)] = path or '/'
+        inst = {}
+        for k, x in sorted(vars(node).items()):
+            if hasattr(x, '__dict__') and not isinstance(x, (type, _types.FunctionType, _cptools.Tool)) \
+                    and type(x).__module__.startswith(('harness', '__main__')):
+                todo.append((path + '/' + k, x))
+                inst[k] = 'node'
+            else:
+                inst[k] = _deep(x, seen, 1)
+        out[(path or '/') + ' instance'] = inst
+        for c in type(node).__mro__:
+            if c is object or id(c) in order:
+                continue
+            order[id(c)] = True
+            out[(path or '/') + ' class ' + c.__name__] = _class_state(c, seen)
+    return out
+
+
+def deep_state(site):
+    """name -> canonical contents of the long-lived state a request must leave alone."""
+    import sys as _sys
+    seen = set()
+    out = {}
+    rendered_roots = {}
+    for i, app in enumerate(site.apps):
+        if id(app.root) not in rendered_roots:
+            rendered_roots[id(app.root)] = i
+            for k, v in tree_state(app.root).items():
+                out['app%d tree %s' % (i, k)] = v
+        else:
+            out['app%d tree' % i] = 'same as app%d' % rendered_roots[id(app.root)]
+        av = {}
+        for k, x in sorted(vars(app).items()):
+            if k == 'root':
+                continue
+            if k == 'wsgiapp':
+                av[k] = {a: _deep(b, seen, 2) for a, b in sorted(vars(x).items()) if a not in LAZY_ATTRS and a != 'cpapp'}
+            elif k == 'log':
+                av[k] = {a: _deep(b, seen, 2) for a, b in sorted(vars(x).items())
+                         if isinstance(b, (str, int, bool, type(None))) and a != 'appid'}
+            else:
+                av[k] = _deep(x, seen, 1)
+        out['app%d object' % i] = av
+    for c in DEEP_CLASSES:
+        out['class %s.%s' % (c.__module__, c.__name__)] = _class_state(c, seen)
+    for mn in DEEP_MODULES:
+        m = _sys.modules.get(mn)
+        if m is None:
+            continue
+        g = {}
+        for k, x in sorted(vars(m).items()):
+            if k.startswith('__'):
+                continue
+            if isinstance(x, (dict, list, set, tuple)):
+                g[k] = _deep(x, seen, 1)
+            elif isinstance(x, (_cptools.Toolbox, _cptree.Tree)):
+                g[k] = _deep(x, seen, 1) if isinstance(x, _cptools.Toolbox) else {a: _deep(b, seen, 2) for a, b in vars(x).items()}
+            else:
+                g[k] = type(x).__name__
+        out['module ' + mn] = g
+    out['cherrypy.config'] = _deep(dict(cherrypy.config), seen, 1)
+    return out
